@@ -93,7 +93,11 @@ SymViolations(e) == IF SymbolRangeEncloses(e) THEN {} ELSE {"SymbolRangeEncloses
 Violations(e) == IF e.k = "e" THEN ExprViolations(e) ELSE SymViolations(e)
 \* attribution: lookups that land in text the generator wrote for an expression that is not in the
 \* source (Add called with the zero Range) are named after that branch
-Sig(e, v) == IF e.k = "e" /\ e.syn = 1 THEN "Add.SyntheticExpressionAtZeroRange" ELSE v
+\* a declaration without symbol range although another declaration starts on the same templ line is
+\* the branch SymLineMap = "recreate" of SourceMapOps!AddSym
+Sig(e, v) == IF e.k = "e" /\ e.syn = 1 THEN "Add.SyntheticExpressionAtZeroRange"
+             ELSE IF e.k = "s" /\ e.found = 0 /\ e.sl = 1 THEN "AddSymbolRange.LineMapRecreated"
+             ELSE v
 Drift(e) == e.k = "e" /\ Violations(e) = {} /\ ~AgreesWithModel(e)
 
 -----------------------------------------------------------------------------
